@@ -11,10 +11,10 @@ extern "C" {
 #include "a/utf.h"
 }
 
-enum { L_REALLOC, L_FMT_EXACT_FIT, L_FMT_GROW, L_TRIM_EMPTIES, L_EXIT_FULL, L_EXIT, L_NUL_BYTE, L_HIGH_BYTE, L_UTF, L_SETN_GROW, L_SWAP, L_CMP, L_LEN_EQ_MEM, L_FAULT_HIT, L_FAULT_LATE, L_CAT_OTHER, L_GETN, L_LEN64, L_BIG_RESERVE, L_ACCESSORS, L_FMT_FAILS };
+enum { L_REALLOC, L_FMT_EXACT_FIT, L_FMT_GROW, L_TRIM_EMPTIES, L_EXIT_FULL, L_EXIT, L_NUL_BYTE, L_HIGH_BYTE, L_UTF, L_SETN_GROW, L_SWAP, L_CMP, L_LEN_EQ_MEM, L_FAULT_HIT, L_FAULT_LATE, L_CAT_OTHER, L_GETN, L_LEN64, L_BIG_RESERVE, L_ACCESSORS, L_FMT_FAILS, L_SETM_EXACT };
 static char const *const labels[] = {"reallocation", "catf_exactly_fills_spare_capacity", "catf_reallocates", "trim_empties_string", "exit_with_len_eq_mem", "exit",
                                      "nul_byte_in_content", "byte_ge_0x80", "utf_catc", "setn_grows_length", "swap", "compare", "len_eq_mem_state",
-                                     "fault_hit_library_request", "fault_not_in_first_op", "cat_other_string", "getn", "len_ge_64", "reserve_ge_200_up_to_64KiB", "index_accessors_utf_len_raw_compare", "catf_conversion_refused_by_the_formatter", nullptr};
+                                     "fault_hit_library_request", "fault_not_in_first_op", "cat_other_string", "getn", "len_ge_64", "reserve_ge_200_up_to_64KiB", "index_accessors_utf_len_raw_compare", "catf_conversion_refused_by_the_formatter", "setm__capacity_set_exactly_incl_shrink_to_fit", nullptr};
 static char const *const metrics[] = {"max_len", "faulty_executions", nullptr};
 static uint8_t const dict[] = {0x20, 0x09, 0x0A, 0x25, 0x73, 0xC3, 0xE2, 0xF0};
 #ifdef VP_FAULT
@@ -573,11 +573,29 @@ static void run_history(Tape &t, Ctx &cx, uint64_t fail_at, int mode, uint64_t *
                 static size_t const res[] = {200, 1000, 4095, 4096, 4097, 4104, 5000, 8192, 12288, 65536};
                 if (big % 8 == 0) { want = res[(big >> 3) % 10] + (big >> 7); cx.label(L_BIG_RESERVE); }
             }
+            // the unconditional form a_str_setm_ sets the capacity to what is asked (rounded up to a pointer): also downwards, to
+            // the content length or a little above it (shrink to fit); asked for less than the length it would cut the content off,
+            // which is the caller's error and not generated
+            bool exactly = (r.opno % 5) == 2;
+            if (exactly)
+            {
+                static size_t const slack[] = {0, 1, 2, 8, 9, 64};
+                want = a_str_len(s.s) + slack[want % 6];
+            }
             for (int attempt = 0; attempt < 2; ++attempt)
             {
                 uint64_t fb = g_shim.faults;
-                cx.log("s%d setm(%zu) mem %zu ...\n", si, want, a_str_mem(s.s));
-                int rc = a_str_setm(s.s, want);
+                cx.log("s%d setm%s(%zu) mem %zu ...\n", si, exactly ? "_" : "", want, a_str_mem(s.s));
+                int rc = exactly ? a_str_setm_(s.s, want) : a_str_setm(s.s, want);
+                if (exactly && rc == A_SUCCESS)
+                {
+                    size_t up = (want + sizeof(void *) - 1) / sizeof(void *) * sizeof(void *);
+                    VP_CHECK(cx, a_str_mem(s.s) == up, "str:setm_capacity", "setm_(%zu): capacity %zu, the request rounded up to a pointer is %zu", want, (size_t)a_str_mem(s.s), up);
+                    if (up == s.m.size()) { s.term = false; } // the terminator, if there was one, lay outside the new capacity
+                    cx.label(L_SETM_EXACT);
+                    verify(r, s, "setm_");
+                    break;
+                }
                 if (rc != A_SUCCESS)
                 {
                     VP_CHECK(cx, rc == A_OMEMORY, "str:setm_return", "setm returned %d", rc);
